@@ -128,5 +128,5 @@ def nontrivial(case, obs):
     return any(ev[0] == "api<" and ev[1] == "proc" for ev, ctx in obs["xlog"])
 
 
-LEAN_MODULES = ["C10"]  # TODO C10b
+LEAN_MODULES = ["C10", "C10b"]
 objects.install(globals(), ("tm",))
